@@ -18,7 +18,7 @@
    pairs reach the voting, id issuing, history truncation, auto-waste - is decided here. *)
 From Coq Require Import List NArith ZArith QArith Bool Lia.
 From Similari Require Import Base.Num Model.Constraints.
-From SimilariGen Require Import Consts.
+From SimilariGen Require Import Consts ScalarGate.
 Import ListNotations.
 Open Scope N_scope.
 
@@ -126,9 +126,12 @@ Fixpoint set_epoch (e : list (N * N)) (s v : N) : list (N * N) :=
   | (k, x) :: r => if k =? s then (k, v) :: r else (k, x) :: set_epoch r s v
   end.
 
-(* EpochDb::baked: `last_updated + max_idle_epochs < current_epoch(scene)`  =>  TrackStatus::Wasted *)
+(* EpochDb::baked: TrackStatus::Wasted iff the comparison TRANSLATED from the Rust source on every run
+   (gen/ScalarGate.v: baked_wasted_cmp last_updated max_idle current_epoch.get(scene)) holds; an absent scene
+   reads as epoch 0 on both sides.  Proofs use it only through GateProofs.baked_wasted_cmp_spec
+   (TrackerBase.expired_ltb), so a change of the Rust comparison changes this model and breaks the proofs. *)
 Definition expired (c : cfg) (e : list (N * N)) (t : trk) : bool :=
-  t_last t + max_idle c <? epoch_of e (t_scene t).
+  baked_wasted_cmp Qops (t_last t) (max_idle c) (Some (epoch_of e (t_scene t))).
 
 (* ------------------------------------------------------------------------------------------------ *)
 (* stores *)
@@ -484,9 +487,11 @@ Definition xstep (G : N -> list N -> option Z) (D2R : N -> list N -> Q) (solve :
   end.
 
 (* a whole history: per op (output, number of optimal assignments, main store, wasted store) *)
-Definition run_case (tb : otable) (hs : hints) (c : cfg) (xs : list xop)
+Definition run_case_with (solve : solver) (tb : otable) (c : cfg) (xs : list xop)
   : list (xout * N * list (N * N * N * N * option Z * list N * N * N) * list (N * N * N * N * option Z * list N * N * N)) :=
   fst (fold_left (fun acc x =>
-                    let '((o, ties), st') := xstep (G_of tb) (D2R_of tb) (hint_solver hs) c (snd acc) x in
+                    let '((o, ties), st') := xstep (G_of tb) (D2R_of tb) solve c (snd acc) x in
                     (fst acc ++ [(o, ties, map trk_tuple (live st'), map trk_tuple (wasted st'))], st'))
                  xs ([], init)).
+
+Definition run_case (tb : otable) (hs : hints) (c : cfg) (xs : list xop) := run_case_with (hint_solver hs) tb c xs.
